@@ -149,6 +149,84 @@ pub fn installed_elfs(limit: usize, r: &mut Rng) -> Vec<String> {
     v
 }
 
+fn run_proc(pid: i32, start: u64) -> (String, String) {
+    use minidump_writer::module_reader::ProcessReader;
+    let prev = std::panic::take_hook();
+    std::panic::set_hook(Box::new(|_| {}));
+    let b = catch_unwind(AssertUnwindSafe(|| BuildId::read_from_module(ProcessReader::new(pid, start as usize).into())));
+    let s = catch_unwind(AssertUnwindSafe(|| SoName::read_from_module(ProcessReader::new(pid, start as usize).into())));
+    std::panic::set_hook(prev);
+    let bs = match b {
+        Ok(Ok(BuildId(v))) => format!("ok:{}", hex(&v)),
+        Ok(Err(e)) => format!("err:{}", variant(&e)),
+        Err(_) => "panic".to_string(),
+    };
+    let ss = match s {
+        Ok(Ok(SoName(v))) => format!("ok:{}", hex(v.as_bytes())),
+        Ok(Err(e)) => format!("err:{}", variant(&e)),
+        Err(_) => "panic".to_string(),
+    };
+    (bs, ss)
+}
+
+/// one live target that maps a few generated images; every image is read from the target's memory and
+/// from its file
+fn proc_case(seed: u64, i: u64, out: &mut dyn std::io::Write) {
+    use crate::live::{run_dir, Target};
+    const PAGE: usize = 4096;
+    let mut r = Rng::for_case(seed, 4014, i);
+    let dir = format!("{}/proc-{}-{}", run_dir("C14"), seed, i);
+    let _ = std::fs::remove_dir_all(&dir);
+    std::fs::create_dir_all(&dir).unwrap();
+    let nm = r.range(1, 3) as usize;
+    let mut args = vec!["-t".to_string(), "0".to_string()];
+    let mut files = Vec::new();
+    for k in 0..nm {
+        let mut spec = crate::elfgen::gen_spec(&mut r);
+        if r.chance(2, 3) {
+            spec.bias = 0;
+        }
+        let built = crate::elfgen::build(&spec);
+        let mut bytes = built.bytes.clone();
+        let kind = *r.pick(&["whole", "whole", "split", "short", "rw-tail"]);
+        let pages = ((bytes.len() + PAGE - 1) / PAGE).max(1);
+        let want = pages.max(if kind == "split" || kind == "rw-tail" { 2 } else { 1 });
+        if r.chance(1, 2) {
+            bytes.resize(want * PAGE, 0);
+        } else if bytes.len() <= (want - 1) * PAGE {
+            bytes.resize((want - 1) * PAGE + 17, 0x22);
+        }
+        let path = format!("{}/img{}", dir, k);
+        std::fs::write(&path, &bytes).unwrap();
+        let layout = match kind {
+            "split" => format!("0:1:r,0x1000:{}:rx", want - 1),
+            "rw-tail" => format!("0:1:rx,0x1000:{}:rw", want - 1),
+            // only the first page is mapped: anything the headers point to beyond it cannot be read
+            "short" => "0:1:r".to_string(),
+            _ => format!("0:{}:rx", want),
+        };
+        args.push("-M".into());
+        args.push(format!("{}|-|{}", hex(path.as_bytes()), layout));
+        let consistent = spec.bias == 0 && kind != "short";
+        files.push((path, layout, bytes, consistent, spec.soname_twice));
+    }
+    let t = match Target::spawn(&args) {
+        Ok(t) => t,
+        Err(_) => return,
+    };
+    let lmods: Vec<u64> = t.desc["lmods"].as_array().unwrap().iter().map(|m| m["addr"].as_u64().unwrap()).collect();
+    for (k, (path, layout, bytes, consistent, twice)) in files.iter().enumerate() {
+        let (pb, ps) = run_proc(t.pid, lmods[k]);
+        let (fb, fs) = run_slice(bytes);
+        writeln!(
+            out,
+            "C14 p{}-{}-{} kind=proc file=@{} start={} layout={} buildid={} soname={} fbuildid={} fsoname={} consistent={}",
+            seed, i, k, path, lmods[k], layout, pb, ps, fb, fs, (*consistent && !*twice) as u8
+        )
+        .unwrap();
+    }
+}
+
 fn wellformed_case(seed: u64, i: u64) -> String {
         let mut r = Rng::for_case(seed, 3014, i);
     let spec = crate::elfgen::gen_spec(&mut r);
@@ -201,6 +279,12 @@ pub fn generate(seed: u64, tier: &str, out: &mut dyn std::io::Write) {
     let nwf = if tier == "thorough" { 30000 } else { 3000 };
     for i in 0..nwf {
         writeln!(out, "{}", wellformed_case(seed, i)).unwrap();
+    }
+    // the same generated images, loaded by a live target and read from its memory (process mode), next to
+    // the answers from the file
+    let nproc = if tier == "thorough" { 400 } else { 40 };
+    for i in 0..nproc {
+        proc_case(seed, i, out);
     }
     let mut r = Rng::for_case(seed, 2014, 0);
     for (i, p) in installed_elfs(nfiles, &mut r).iter().enumerate() {
